@@ -525,7 +525,7 @@ OBLIGATIONS = [
                                + [dict(nsteps=2, plen=2, p0=0, p1=1, pa=2, s0=k, s1=m) for k in range(len(STEPS)) for m in range(len(STEPS))]
                                + [dict(nsteps=2, plen=2, p0=3, p1=2, pa=2, s0=k, s1=m) for k in (0, 1, 9) for m in (0, 1, 9)],
                       "thorough": [dict(nsteps=2, plen=2, p0=i, p1=j, s0=k) for i in (0, 1, 3, 4) for j in (0, 1, 2) for k in range(len(STEPS))]
-                                  + [dict(nsteps=3, plen=2, p0=0, p1=1, s0=k, s1=m, e20=0) for k in range(len(STEPS)) for m in range(len(STEPS))],},
+                                  + [dict(nsteps=3, plen=2, p0=0, p1=1, s0=k, s1=m, e20=0, pa=2) for k in range(len(STEPS)) for m in range(len(STEPS))],},
                timeout={"quick": 240, "thorough": 1500},
                regions={"C08-cache-misses-chmod": _region_chmod},
                symbolic="initial entry kinds, step kinds and directories, appended PATH entry"),
